@@ -2,7 +2,10 @@ module gosym
 
 go 1.23
 
-require golang.org/x/tools v0.29.0
+require (
+	github.com/lucasjones/reggen v0.0.0-20200904144131-37ba4fa293bb
+	golang.org/x/tools v0.29.0
+)
 
 require (
 	golang.org/x/mod v0.22.0 // indirect
